@@ -116,7 +116,13 @@ def build(case, labs):
         G = pywhy_nx.MixedEdgeGraph(graphs=[x[1] for x in layers], edge_types=[x[0] for x in layers])
     late = case.get("late", 0)
     for v in order:
-        if late and (v % 2 == 0 or late == 2):
+        if late == 3:
+            # created WITH attributes, which are then replaced / deleted through the node view: what
+            # G.nodes[n] says now are the node's attributes (the layers still remember the old ones)
+            G.add_node(labs[v], label="stale", observed="stale", w=-1, tags="stale", k="stale", stale=True)
+            G.nodes[labs[v]].clear()
+            G.nodes[labs[v]].update(copy.deepcopy(ATTRS[case["attrs"][v]]))
+        elif late and (v % 2 == 0 or late == 2):
             # attributes written after the node was created (G.nodes[n][k] = v / set_node_attributes):
             # they are G's node attributes just as much as those passed to add_node
             G.add_node(labs[v])
@@ -374,8 +380,8 @@ def mk_case(rng, g, fam, src, allq, queries, cls="mixed", names=None, attrs=None
     if names:
         case["names"] = names
     r = rng.random()
-    if r < 0.3:
-        case["late"] = 1 if r < 0.2 else 2
+    if r < 0.45:
+        case["late"] = 1 if r < 0.15 else 2 if r < 0.3 else 3
     return case
 
 
